@@ -762,6 +762,9 @@ func convertValue(src rv, dst types.Type) rv {
 	_, sb := src.t.Underlying().(*types.Basic)
 	_, db := dst.Underlying().(*types.Basic)
 	if sb && db {
+		if reflectKind(src.t) == reflect.Bool || (reflectKind(src.t) == reflect.String && reflectKind(dst) == reflect.String) {
+			return rv{t: dst, p: v, flags: ro}
+		}
 		return rv{t: dst, p: conv(dst, src.t, v), flags: ro}
 	}
 	if sb != db {
